@@ -34,6 +34,10 @@ def Loss.lt : Loss → Loss → Bool
   | .fin _, .pinf => true
   | .pinf, _ => false
 
+/-- IEEE `<=`: false whenever a NaN is involved (the source uses `<` only; the translator needs the others to be
+able to express what an edited source says) -/
+def Loss.le (a b : Loss) : Bool := a.lt b || (a == b && a != .nan)
+
 structure Cfg where
   numRound : Nat
   maxTrain : Nat
